@@ -2,12 +2,12 @@
    ExtrOcamlBasic only: bool, option, unit, list, prod, sumbool, sumor map to OCaml's own
    types; Z, positive, N, nat and Flocq's binary_float stay the Coq datatypes. *)
 From Coq Require Import ZArith List Extraction ExtrOcamlBasic.
-Require Import SZV.Base.Bytes SZV.Base.BitPack SZV.Base.CSem SZV.Gen.SrcFuns SZV.Model.Dims SZV.Model.Huffman SZV.Model.RW SZV.Model.H5Z SZV.Model.Transpose SZV.Model.Lossless SZV.Model.Conf SZV.Model.Header SZV.Model.Quant SZV.Model.QuantInt SZV.Base.FloatOps SZV.Model.QuantFloat SZV.Model.QuantFloat2 SZV.Model.Api SZV.Model.TimeStep SZV.Model.TimeStepFloat SZV.Model.Threads SZV.Model.Ledger.
+Require Import SZV.Base.Bytes SZV.Base.BitPack SZV.Base.CSem SZV.Gen.SrcFuns SZV.Model.Dims SZV.Model.Huffman SZV.Model.RW SZV.Model.H5Z SZV.Model.Transpose SZV.Model.Lossless SZV.Model.Conf SZV.Model.Header SZV.Model.Quant SZV.Model.QuantInt SZV.Base.FloatOps SZV.Model.InlineUnpack SZV.Model.QuantFloat SZV.Model.QuantFloat2 SZV.Model.Api SZV.Model.TimeStep SZV.Model.TimeStepFloat SZV.Model.Threads SZV.Model.Ledger.
 Extraction Blacklist List String Int.
 Extraction "../ocaml/gen/szm.ml"
   to_be from_be to_signed to_unsigned fp_to_bytes bytes_to_fp size_to_bytes bytes_to_size
   array_to_bytes bytes_to_array
-  pack unpack packed_len read_all
+  pack unpack packed_len read_all inline_extract inline_advance
   fdim_report filtered wfb c_computeDataLength c_computeDimension
   codes encode_with encode_bytes decode decode_msst19 pad unpad parse_seq size nsize idx_width tree_bytes parse_tree_bytes
   tree_bytes_len tree_ok leaves pack_bits
